@@ -32,6 +32,9 @@ func H13Exact() {
 	for i := range xs {
 		xs[i] = vndFloat64("x")
 		vndAssume(h13Bounded(xs[i]))
+		if n >= 5 && i > 0 {
+			vndAssume(xs[i-1] <= xs[i]) // larger samples are handed over sorted: one path per tie pattern
+		}
 	}
 	s := NewSample(append([]float64(nil), xs...), &DefaultThresholds)
 	sum := AssumeExact.Summary(s, 0.95)
